@@ -1,4 +1,5 @@
 import CoapVerif.Model.BlockNetTok
+import CoapVerif.Lemmas.BlockNet
 /- Tokens in the composed Block2 system (C09, round R09c): invariant `TInv` of `b2tStep` and the step lemma
    `b2tStep_shown`: a token shown to the response handler is the application's or belongs to an lg_crcv released before. -/
 namespace Coap.Block
@@ -469,5 +470,251 @@ theorem b2tRun_inv (P : B2Par) (app : Bytes) (evs : List B2TEvent) :
 
 theorem runInvT_init (app : Bytes) : RunInvT app {} :=
   ⟨⟨fun _ h => (by cases h), fun _ h => (by cases h), fun _ h => (by cases h)⟩, fun _ h => (by cases h), fun _ h => (by cases h)⟩
+
+/-! ## the body theorems of `b2Step` carry over to the system with tokens and an lg_crcv LIST -/
+
+/-- which lg_crcv the scan hands to `crcvFound`, and what the list looks like afterwards -/
+theorem crcvScanT_lg (single : Bool) (cap : Nat) (junk : UInt8) (tok : Bytes) (r : Resp) :
+    ∀ (l l' : List CrcvT) (rel : List Nat) (x : TRes),
+      crcvScanT single cap junk tok r l = some (l', rel, x) →
+      ∃ e ∈ l, x.out = (crcvFound single cap junk e.lg r).2 ∧
+        ∀ e' ∈ l', (∃ e0 ∈ l, e'.lg = e0.lg) ∨ (crcvFound single cap junk e.lg r).1 = some e'.lg := by
+  intro l
+  induction l with
+  | nil => intro l' rel x h; simp [crcvScanT] at h
+  | cons e es ih =>
+    intro l' rel x h
+    unfold crcvScanT at h
+    split at h
+    · split at h
+      · rename_i y hy
+        obtain ⟨y1, y2, y3⟩ := y
+        simp only [Option.some.injEq, Prod.mk.injEq] at h
+        obtain ⟨h1, h2, h3⟩ := h
+        subst h1 h2 h3
+        obtain ⟨e1, he1, ho, hl⟩ := ih y1 y2 y3 hy
+        refine ⟨e1, List.mem_cons_of_mem _ he1, ho, ?_⟩
+        intro e' he'
+        rcases List.mem_cons.1 he' with rfl | he'
+        · exact Or.inl ⟨e', List.mem_cons_self, rfl⟩
+        · rcases hl e' he' with ⟨e0, h0, h1⟩ | h
+          · exact Or.inl ⟨e0, List.mem_cons_of_mem _ h0, h1⟩
+          · exact Or.inr h
+      · simp at h
+    · dsimp only at h
+      split at h
+      · rename_i lg' hlg
+        simp only [Option.some.injEq, Prod.mk.injEq] at h
+        obtain ⟨h1, h2, h3⟩ := h
+        subst h1 h2 h3
+        refine ⟨e, List.mem_cons_self, rfl, ?_⟩
+        intro e' he'
+        rcases List.mem_cons.1 he' with rfl | he'
+        · exact Or.inr hlg
+        · exact Or.inl ⟨e', List.mem_cons_of_mem _ he', rfl⟩
+      · simp only [Option.some.injEq, Prod.mk.injEq] at h
+        obtain ⟨h1, h2, h3⟩ := h
+        subst h1 h2 h3
+        refine ⟨e, List.mem_cons_self, rfl, ?_⟩
+        intro e' he'
+        exact Or.inl ⟨e', List.mem_cons_of_mem _ he', rfl⟩
+
+/-- ONE call, seen from `crcvStep`: the output is `crcvStep`'s on the matched lg_crcv (or on none), or the message was
+dropped; every lg_crcv afterwards is an old one, a fresh one, or `crcvStep`'s result -/
+theorem crcvStepT_lg (single : Bool) (cap : Nat) (junk : UInt8) (c : CliT) (sentTok : Option Bytes) (tok : Bytes) (r : Resp)
+    (hs : ∀ st, sentTok = some st → st = tok) (hb : ∃ num m szx, r.blk = some (num, m, szx)) :
+    let res := crcvStepT single cap junk c sentTok tok r
+    (res.2.out = CrcvOut.skip ∧ res.1.crcvs = c.crcvs) ∨
+    ∃ st, (st = none ∨ ∃ e ∈ c.crcvs, st = some e.lg) ∧ res.2.out = (crcvStep single cap junk st r).2 ∧
+      ∀ e' ∈ res.1.crcvs, (∃ e0 ∈ c.crcvs, e'.lg = e0.lg) ∨ e'.lg.initial = true ∨
+        (crcvStep single cap junk st r).1 = some e'.lg := by
+  intro res
+  obtain ⟨num, m, szx, hblk⟩ := hb
+  have hres : res = crcvStepT single cap junk c sentTok tok r := rfl
+  unfold crcvStepT at hres
+  split at hres
+  · rename_i x hx
+    obtain ⟨l', rel, y⟩ := x
+    obtain ⟨e, he, ho, hl⟩ := crcvScanT_lg single cap junk tok r _ _ _ _ hx
+    right
+    refine ⟨some e.lg, Or.inr ⟨e, he, rfl⟩, ?_, ?_⟩
+    · rw [hres]; exact ho
+    · intro e' he'
+      rw [hres] at he'
+      rcases hl e' he' with h | h
+      · exact Or.inl h
+      · exact Or.inr (Or.inr h)
+  · rename_i hx
+    split at hres
+    · left
+      rw [hblk] at hres
+      rw [hres]
+      exact ⟨rfl, rfl⟩
+    · rename_i st
+      have hst : st = tok := hs st rfl
+      rw [hblk] at hres
+      dsimp only at hres
+      split at hres
+      · rename_i hnum
+        right
+        refine ⟨none, Or.inl rfl, ?_, ?_⟩
+        · rw [hres]; simp [crcvStep, hblk, hnum]
+        · intro e' he'
+          rw [hres] at he'
+          exact Or.inl ⟨e', he', rfl⟩
+      · rename_i hnum
+        have hnum0 : num = 0 := by
+          rcases Nat.eq_zero_or_pos num with h | h
+          · exact h
+          · exact absurd (Nat.pos_iff_ne_zero.1 h) hnum
+        split at hres
+        · rename_i x hx2
+          obtain ⟨l', rel, y⟩ := x
+          obtain ⟨e, he, ho, hl⟩ := crcvScanT_lg single cap junk tok r _ _ _ _ hx2
+          simp only [List.mem_singleton] at he
+          subst he
+          have hstep : crcvStep single cap junk none r = crcvFound single cap junk {} r := by
+            simp [crcvStep, hblk, hnum0]
+          right
+          refine ⟨none, Or.inl rfl, ?_, ?_⟩
+          · rw [hres, hstep]; exact ho
+          · intro e' he'
+            rw [hres] at he'
+            rcases List.mem_append.1 he' with he' | he'
+            · rcases hl e' he' with ⟨e0, h0, h1⟩ | h
+              · simp only [List.mem_singleton] at h0
+                subst h0
+                right; left
+                rw [h1]
+              · right; right
+                rw [hstep]; exact h
+            · exact Or.inl ⟨e', he', rfl⟩
+        · rename_i hx2
+          exfalso
+          have := crcvScanT_none single cap junk tok r _ hx2 _ List.mem_cons_self
+          exact this.2 hst.symm
+
+/-- `srvOnReq` neither reads nor writes the client's state -/
+theorem srvOnReq_withCli (P : B2Par) (n : B2Sys) (c : Option Crcv) (num szx : Nat) :
+    srvOnReq P { n with cli := c } num szx = { srvOnReq P n num szx with cli := c } := by
+  unfold srvOnReq
+  dsimp only
+  split
+  · split
+    · split
+      · split <;> rfl
+      · rfl
+    · rfl
+  · split <;> rfl
+
+/-- `B2Inv` of the datagrams / server / outputs with EVERY lg_crcv of the list (and with none) in the client's place -/
+def B2TInv (P : B2Par) (s : B2TSys) : Prop :=
+  B2Inv P { s.net with cli := none } ∧ ∀ e ∈ s.cli.crcvs, B2Inv P { s.net with cli := some e.lg }
+
+theorem b2Inv_fresh {P : B2Par} {n : B2Sys} {c : Option Crcv} (h : B2Inv P { n with cli := c }) (lg : Crcv)
+    (hi : lg.initial = true) : B2Inv P { n with cli := some lg } :=
+  { rsp := h.rsp, func := h.func, srv := h.srv, outs := h.outs,
+    cli := (by intro c' hc' hi'; cases hc'; rw [hi] at hi'; cases hi') }
+
+/-- another output / other requests do not disturb the invariant of an lg_crcv that was not touched -/
+theorem b2Inv_out {P : B2Par} {n : B2Sys} {c : Option Crcv} (h : B2Inv P { n with cli := c }) (o : CrcvOut)
+    (ho : GoodOut P.single P.body o) (q : List (Nat × Nat)) :
+    B2Inv P { n with cli := c, outs := n.outs ++ [o], reqs := q } :=
+  { rsp := h.rsp, func := h.func, srv := h.srv, cli := h.cli,
+    outs := (by
+      intro o' ho'
+      have ho'' : o' ∈ n.outs ++ [o] := ho'
+      rcases List.mem_append.1 ho'' with h1 | h1
+      · exact h.outs o' h1
+      · rw [List.mem_singleton] at h1; rw [h1]; exact ho) }
+
+theorem goodOut_skip (single : Bool) (body : Bytes) : GoodOut single body CrcvOut.skip :=
+  ⟨fun d l h => (by cases h), fun off p total nx h => (by cases h), fun off p total h => (by cases h),
+    fun off p total h => (by cases h), fun p h => (by cases h)⟩
+
+theorem b2tStep_body_inv (P : B2Par) (hP : B2ParOK P) (app : Bytes) (s : B2TSys) (ev : B2TEvent) (h : B2TInv P s) :
+    B2TInv P (b2tStep P app s ev) := by
+  cases ev with
+  | appGet szx =>
+    exact ⟨{ rsp := h.1.rsp, func := h.1.func, srv := h.1.srv, cli := h.1.cli, outs := h.1.outs },
+      fun e he => { rsp := (h.2 e he).rsp, func := (h.2 e he).func, srv := (h.2 e he).srv, cli := (h.2 e he).cli,
+                    outs := (h.2 e he).outs }⟩
+  | reqArrives i =>
+    simp only [b2tStep]
+    split
+    · rename_i num szx tok h1 h2
+      refine ⟨?_, fun e he => ?_⟩
+      · have := srvOnReq_inv P hP _ num szx h.1
+        rw [srvOnReq_withCli] at this
+        exact this
+      · have := srvOnReq_inv P hP _ num szx (h.2 e he)
+        rw [srvOnReq_withCli] at this
+        exact this
+    · exact h
+  | rspArrives j sent =>
+    simp only [b2tStep]
+    split
+    · rename_i r tok h1 h2
+      have hr : r ∈ s.net.rsps := List.mem_of_getElem? h1
+      have hb : ∃ num m szx, r.blk = some (num, m, szx) := by
+        obtain ⟨num, szx, k, g1, _⟩ := h.1.rsp r hr
+        exact ⟨_, _, _, g1⟩
+      have hlg := crcvStepT_lg P.single P.cap P.junk s.cli (if sent then some tok else none) tok r
+        (by intro st hst; split at hst <;> simp at hst; exact hst.symm) hb
+      generalize crcvStepT P.single P.cap P.junk s.cli (if sent then some tok else none) tok r = res at *
+      generalize (match nextReq res.2.out, res.2.reqTok with
+               | some q, some t => ([q], [t])
+               | _, _ => (([] : List (Nat × Nat)), ([] : List Bytes))) = q
+      rcases hlg with ⟨ho, hl⟩ | ⟨st, hst, ho, hl⟩
+      · -- dropped
+        rw [ho]
+        refine ⟨b2Inv_out h.1 _ (goodOut_skip _ _) _, fun e he => ?_⟩
+        rw [hl] at he
+        exact b2Inv_out (h.2 e he) _ (goodOut_skip _ _) _
+      · -- `crcvStep` on the matched lg_crcv / on none
+        have hbase : B2Inv P { s.net with cli := st } := by
+          rcases hst with rfl | ⟨e, he, rfl⟩
+          · exact h.1
+          · exact h.2 e he
+        have hstep := cliOnRsp_inv P { s.net with cli := st } r hr hbase
+        have hgood : GoodOut P.single P.body res.2.out := by
+          rw [ho]
+          exact hstep.outs _ (List.mem_append_right _ List.mem_cons_self)
+        refine ⟨b2Inv_out h.1 _ hgood _, fun e' he' => ?_⟩
+        rcases hl e' he' with ⟨e0, h0, h1⟩ | hi | hnew
+        · rw [h1]; exact b2Inv_out (h.2 e0 h0) _ hgood _
+        · exact b2Inv_fresh (b2Inv_out h.1 _ hgood _) _ hi
+        · rw [ho]
+          exact { rsp := hstep.rsp, func := hstep.func, srv := hstep.srv, outs := hstep.outs,
+                  cli := (by rw [← hnew]; exact hstep.cli) }
+    · exact h
+  | srvExpire =>
+    exact ⟨{ rsp := h.1.rsp, func := h.1.func, srv := (by intro x hx; cases hx), cli := h.1.cli, outs := h.1.outs },
+      fun e he => { rsp := (h.2 e he).rsp, func := (h.2 e he).func, srv := (by intro x hx; cases hx),
+                    cli := (h.2 e he).cli, outs := (h.2 e he).outs }⟩
+  | cliExpire i =>
+    refine ⟨h.1, fun e he => ?_⟩
+    have he' : e ∈ (cliExpireT s.cli i).crcvs := he
+    unfold cliExpireT at he'
+    split at he'
+    · exact h.2 e (List.mem_of_mem_eraseIdx he')
+    · exact h.2 e he'
+  | cliNew =>
+    refine ⟨h.1, fun e he => ?_⟩
+    have he' : e ∈ (cliSendT s.cli app).crcvs := he
+    unfold cliSendT at he'
+    rcases List.mem_cons.1 he' with rfl | he'
+    · exact b2Inv_fresh h.1 _ rfl
+    · exact h.2 e ((dropApp_spec app s.cli.crcvs).2 e he')
+
+theorem b2tRun_body_inv (P : B2Par) (hP : B2ParOK P) (app : Bytes) (evs : List B2TEvent) :
+    ∀ s, B2TInv P s → B2TInv P (b2tRun P app s evs) := by
+  induction evs with
+  | nil => intro s h; exact h
+  | cons ev evs ih => intro s h; exact ih _ (b2tStep_body_inv P hP app s ev h)
+
+theorem b2TInv_init (P : B2Par) : B2TInv P {} :=
+  ⟨{ rsp := (b2_init_inv P).rsp, func := (b2_init_inv P).func, srv := (b2_init_inv P).srv,
+     cli := (by intro c hc; cases hc), outs := (b2_init_inv P).outs }, fun _ h => (by cases h)⟩
 
 end Coap.Block
